@@ -33,6 +33,7 @@ RULE = ("one run = 2-4 mailbox users of 1-2 simulated terminals, each doing 1-5 
         "+ mailbox event order); non-trivial = at least two users had exchanges overlapping "
         "in time")
 RULE += "; since the 4th session 'run-sessions' also has a second participant of the same process joining and leaving during the exchanges, and 'processes' attaches terminals found in INIT (with a stale station address) through Terminal.gentle_initialize in 30 % of the runs"
+RULE += '; also a preset with two processes that each have a user at each of two terminals (cancel faults on)'
 COMPONENTS = {
     "real": ["ebpfcat.lock.MailboxLock/ParallelMailboxLock/LockFile", "ebpfcat.ethercat."
              "Terminal.mbx_send/mbx_recv/coe_recv/coe_request/sdo_read/sdo_write/"
